@@ -310,6 +310,24 @@ def generate(rng: random.Random, profile: Optional[Dict[str, Any]] = None) -> Di
                 tid = None
                 n_rw = 1  # default ids: every yield is its own transaction
             rws = [make_rewrite() for _ in range(n_rw)]
+            if explicit and rng.random() < 0.3:
+                # several insertions at one point inside one transaction (e.g. imports moved to the top):
+                # nothing but the scheduler's final sort fixes their order
+                ins = [r for r in rws if r["target"][0] == "insert"]
+                if not ins:
+                    for _try in range(12):
+                        cand = make_rewrite()
+                        if cand["target"][0] == "insert":
+                            rws.append(cand)
+                            ins = [cand]
+                            break
+                if ins:
+                    for _extra in range(rng.randint(1, 3)):
+                        m2 = new_marker()
+                        rws.append({
+                            "target": list(ins[0]["target"]), "marker": m2, "tk": "stmt",
+                            "new": ["ast_stmt", rng.choice([f"{m2} = 0", f"import {m2}", f"{m2}()", f"from {m2} import x"])],
+                        })
             if faults_enabled["dup_rewrite"] and rng.random() < 0.25:
                 rws.append(dict(rws[0]))
             for rw in rws:
